@@ -244,10 +244,16 @@ def select_by_metadata(ds, fmt: str):
         if name not in ds._dataset_info.splits:
             continue
         codes = sorted({md_code(i.custom_metadata) for i in ds.shard_info_iterator(name)})
+        nsh = sum(1 for _ in ds.shard_info_iterator(name))
         for code in codes:
             flt = (lambda si, code=code: md_code(si.custom_metadata) == code)
-            for iface in ifaces:
-                kw = dict(split=name, repeat=False, shuffle=0, shard_filter=flt)
+            # … alone, and combined with the other selection options set to values that select nothing away (a per-metadata
+            # limit / a shard count as large as the split): the predicate must keep deciding
+            variants = [(i, {}) for i in ifaces] + [(i + "+limit", {"custom_metadata_type_limit": nsh}) for i in ("sync", "concurrent", "tf")] \
+                + [(i + "+shards", {"shards": nsh}) for i in ("sync", "concurrent")]
+            for iface_name, extra in variants:
+                iface = iface_name.split("+")[0]
+                kw = dict(split=name, repeat=False, shuffle=0, shard_filter=flt, **extra)
                 try:
                     if iface == "sync": got = [sp.ident(e) for e in ds.as_numpy_iterator(**kw)]
                     elif iface == "concurrent": got = [sp.ident(e) for e in ds.as_numpy_iterator_concurrent(file_parallelism=2, **kw)]
@@ -256,9 +262,9 @@ def select_by_metadata(ds, fmt: str):
                         async def main():
                             return [sp.ident(e) async for e in ds.as_numpy_iterator_async(file_parallelism=2, **kw)]
                         got = asyncio.run(main())
-                    out.append({"split": s, "md": code, "iface": iface, "got": sorted(got)})
+                    out.append({"split": s, "md": code, "iface": iface_name, "got": sorted(got)})
                 except Exception as e:  # noqa: BLE001
-                    out.append({"split": s, "md": code, "iface": iface, "error": f"{type(e).__name__}: {str(e)[:120]}"})
+                    out.append({"split": s, "md": code, "iface": iface_name, "error": f"{type(e).__name__}: {str(e)[:120]}"})
     return out
 
 
